@@ -1028,6 +1028,16 @@ func (t *Tr) stmts(ss []ast.Stmt, d int) string {
 		if x.Tok == token.DEC {
 			op = " - 1"
 		}
+		if sel, isSel := x.X.(*ast.SelectorExpr); isSel {
+			// s.f++ / s.f-- : same as s.f += 1 / s.f -= 1
+			one := &ast.BasicLit{Kind: token.INT, Value: "1", ValuePos: x.Pos()}
+			t.info().Types[one] = types.TypeAndValue{Type: t.typeOf(sel), Value: constant.MakeInt64(1)}
+			tok := token.ADD_ASSIGN
+			if x.Tok == token.DEC {
+				tok = token.SUB_ASSIGN
+			}
+			return t.assign1(sel, one, tok, d) + t.stmts(rest, d)
+		}
 		id, ok := x.X.(*ast.Ident)
 		if !ok {
 			t.fail(x.Pos(), "inc/dec of non-identifier")
@@ -1330,6 +1340,17 @@ func (t *Tr) Func(p *Pkg, fd *ast.FuncDecl, leanName string) string {
 		t.fail(fd.Pos(), "partially named results")
 	}
 	rt := "Unit"
+	// a method without results on a pointer-to-struct receiver is a mutator: it is translated as
+	// the function returning the updated receiver (the receiver acts as the single named result)
+	if r := sig.Recv(); r != nil && sig.Results().Len() == 0 && r.Name() != "" && r.Name() != "_" {
+		if pt, ok := r.Type().(*types.Pointer); ok {
+			if _, isStruct := pt.Elem().Underlying().(*types.Struct); isStruct {
+				t.results = []*types.Var{r}
+				rt = t.leanType(r.Type(), fd.Pos())
+				t.Assume["a method without results on a pointer-to-struct receiver returns the updated receiver"] = true
+			}
+		}
+	}
 	if len(rts) == 1 {
 		rt = rts[0]
 	} else if len(rts) > 1 {
